@@ -19,6 +19,7 @@ def main():
     seed = int(os.environ.get("VERIF_SEED", "20260929"))
     tier = a.tier if a.tier in ("quick", "thorough") else "quick"
     ctx = common.Ctx(a.prop, tier, seed)
+    common.CURRENT_TIER = tier
     warnings.filterwarnings("ignore")
     try:
         mod = importlib.import_module("harness.props." + a.prop.lower())
